@@ -766,6 +766,7 @@ def Mon.step (m : Mon) (line : String) (out : String) : Mon × Option String :=
       | some va, some vb =>
         let f : Fact := { op := op, a := a, b := b, ka := va.kindLabel, kb := vb.kindLabel, out := out }
         if out = "panic" then (m, some s!"panic:{op}:{f.ka}:{f.kb}")
+        else if out = "partial-cmp-differs" then (m, some s!"partial-cmp-differs-from-cmp:{f.ka}:{f.kb}")
         else if (op = "cmp" ∧ (ordOf out).isNone) ∨ (op ≠ "cmp" ∧ (boolOf out).isNone) then
           (m, some "unexpected-result")
         else ({ facts := f :: m.facts }, checkNew m.facts f)
